@@ -12,7 +12,7 @@ SUM-INTO (generated-code model of the Into struct and enum handlers):
 """
 from ..report import Report
 from ..syn import es, pat_s, ty_s
-from ..terms import match_arms, term_s, subterms, analyse_iter
+from ..terms import match_arms, term_s, subterms, analyse_iter, strip_refs
 from ..summ import (Summ, access, call_parts, block_stmts, marker_stmts, marker_of_pat, marker_of_expr, marker_of_type, atoms_after_loop)
 from ..facts import Facts, atom_s
 from ..genast import is_marker, marker_name
@@ -442,6 +442,32 @@ def binder_of_selection_into(S, bt):
     return sel, m
 
 
+def check_keys_normalised(cx, rep):
+    """every key stored in a target map (`types.insert(key, ..)`) of the Into attribute builders is the normalised type key
+    `to_hash_type(<the written type>)`: the type-level builder and the field-level builder must agree, or a field marker never
+    matches the target it names (`&str` vs `&'static str`)"""
+    n = 0
+    for f in cx.crate.fns:
+        if f.module.path[:3] != ('trait_handlers', 'into', 'models') and tuple(f.module.path[:3]) != ('trait_handlers', 'into', 'models'):
+            continue
+        fw = cx.fw(f)
+        tm = cx.gm.terms_of(fw)
+        for ev in fw.events:
+            if ev.kind == 'mcall' and ev.method == 'insert' and len(ev.args) == 2:
+                r = strip_refs(ev.recv)
+                if r['k'] != 'Path' or r['path']['s'] != 'types':
+                    continue
+                kt = tm.term(ev.args[0], ev.scope)
+                n += 1
+                if isinstance(kt, tuple) and kt[0] == 'call' and kt[1] == TO_HASH:
+                    rep.ok('SUM-INTO', '%s|key of types.insert is to_hash_type(..)' % f.qname)
+                else:
+                    rep.bad('SUM-INTO', f.qname, 'target-key', 'a target type is stored under a key that is not `to_hash_type(<type>)` (%s): keys of the type-level and field-level builders no longer agree for reference types' % term_s(kt, 80),
+                            f.file, ev.line)
+    if n < 2:
+        rep.broken.append('fewer than 2 `types.insert(..)` sites found in the Into attribute builders (%d)' % n)
+
+
 def check_hash_type(cx, rep):
     """target types are keyed by their token string; `&T` fields compare as `&'static T` (to_hash_type)"""
     fs = [f for f in cx.crate.fns if f.qname.endswith('into::common::to_hash_type')]
@@ -452,90 +478,49 @@ def check_hash_type(cx, rep):
     fw = cx.fw(f)
     tm = cx.gm.terms_of(fw)
     t = tm.block_value_term(f.block, 0)
-    # Decided on the case table of the result term, whatever the control structure: pushing `HashType::from` through the
-    # conditionals,  (ty is a reference, lifetime written)  -> from(parse2(`&#lifetime #inner`)),
-    #                (ty is a reference, no lifetime)      -> from(parse2(`&'static #inner`)),
-    #                (ty is not a reference)               -> from(ty)
-    # with inner = ty stripped of all reference layers (dereference_changed(ty).0 / dereference(reference.elem)).
-    dc = ('call', 'crate::common::r#type::dereference_changed', ('param', 'ty'))
-    from ..terms import subterms as _st
-    why = 'the type key is no longer "token string of the type; a reference keeps its written lifetime and is `&\'static` only without one"'
-    TY = ('param', 'ty')
-
-    def tmpl_of(x):
-        if isinstance(x, tuple) and x[0] == 'unwrap' and isinstance(x[1], tuple) and x[1][0] == 'call' and str(x[1][1]).endswith('parse2') and x[1][2][0] == 'tmpl':
-            for t2 in cx.gm.templates:
-                if id(t2.mac) == x[1][2][1]:
-                    return t2
-        return None
-
-    def is_inner(x):
-        if x == ('proj', 0, dc):
-            return True
-        if isinstance(x, tuple) and x[0] == 'call' and str(x[1]).endswith('r#type::dereference') and len(x) == 3:
-            y = x[2]
-            while isinstance(y, tuple) and y[0] == 'mcall' and y[2] in ('as_ref',) and len(y) == 3:
-                y = y[1]
-            return isinstance(y, tuple) and y[0] == 'field' and y[2] == 'elem' and isinstance(y[1], tuple) and y[1][0] == 'payload' and y[1][1] == 'Type::Reference' and y[1][3] == TY
-        return False
-
-    def is_lifetime_of_ty(L):
-        return any(isinstance(x, tuple) and x[0] == 'field' and x[2] == 'lifetime' and isinstance(x[1], tuple) and x[1][0] == 'payload'
-                   and x[1][1] == 'Type::Reference' and x[1][3] == TY for x in _st(L))
-
-    def cases(x, conds, wrapped):
-        """[(conds, leaf, wrapped-in-HashType::from)]"""
-        if isinstance(x, tuple) and x and x[0] == 'call' and str(x[1]).endswith('HashType::from') and len(x) == 3:
-            return cases(x[2], conds, True)
-        if isinstance(x, tuple) and x and x[0] == 'ite':
-            return cases(x[2], conds + [('ref', True)] if x[1] == ('proj', 1, dc) else conds + [('?', x[1])], wrapped) + \
-                cases(x[3], conds + [('ref', False)] if x[1] == ('proj', 1, dc) else conds + [('?', x[1])], wrapped)
-        if isinstance(x, tuple) and x and x[0] == 'iflet' and len(x) == 5:
-            if x[1].startswith('Type::Reference(') and x[2] == TY:
-                return cases(x[3], conds + [('ref', True)], wrapped) + cases(x[4], conds + [('ref', False)], wrapped)
-            if x[1].startswith('Some(') and is_lifetime_of_ty(x[2]):
-                return cases(x[3], conds + [('lt', True, x[2])], wrapped) + cases(x[4], conds + [('lt', False, x[2])], wrapped)
-            return [(conds + [('?', x[1])], x, wrapped)]
-        return [(conds, x, wrapped)]
-    table = cases(t, [], False)
-    ok = bool(table)
+    # The type key of a target / field type is the type exactly as written, except that a reference without a lifetime gets `'static`
+    # (elided lifetimes are not allowed in an impl header).  Decided on the result leaves: every leaf is `HashType::from(X)`;
+    # X is the argument itself, except under "ty is a reference and has no lifetime", where X is a clone of that reference whose only
+    # change is `lifetime = Some('static)`.  Nothing is stripped (no dereference helpers): `&'a mut T`, `&&T` stay what they are.
+    from ..restable import result_leaves
+    why = 'the type key is no longer "the type as written; a reference without a lifetime is `&\'static`"'
+    pn0 = [p_[0] for p_ in f.params()][:1]
+    leaves = result_leaves(cx, f)
+    ok = bool(leaves) and bool(pn0)
     seen_cases = set()
-    only_static = False
-    for conds, leaf, wrapped in table:
-        cd = {c[0]: c[1] for c in conds if c[0] in ('ref', 'lt')}
-        if any(c[0] == '?' for c in conds) or not wrapped:
+    for v, ctx, how, ev in leaves:
+        if not (v['k'] == 'Call' and es(v['func']).endswith('HashType::from') and len(v['args']) == 1):
             ok = False
             continue
-        if cd.get('ref') is False:
-            if leaf not in (('proj', 0, dc), TY, ('mcall', TY, 'clone')):
-                ok = False
-            seen_cases.add('nonref')
-            continue
-        tl = tmpl_of(leaf)
-        if tl is None or not is_inner(tl.hole_term('ty')):
-            ok = False
-            continue
-        txt = tl.text().replace(' ', '')
-        if 'lt' not in cd:
-            # a reference, whatever its lifetime: only right if ... never (a written lifetime would be replaced)
-            if txt == "&'static#ty":
-                only_static = True
-            ok = False
-            continue
-        if cd['lt'] is False:
-            if txt != "&'static#ty":
+        x = v['args'][0]
+        xs = es(x).replace(' ', '').lstrip('&')
+        conds = []
+        for c_ in ctx:
+            if c_['k'] == 'iflet':
+                conds.append((pat_s(c_['pat']).split('(')[0], es(c_['expr']).replace(' ', '').lstrip('&'), c_['pol']))
+            elif c_['k'] == 'if':
+                conds.append(('if', es(c_['cond']).replace(' ', ''), c_['pol']))
+        is_ref = any(c_[0] in ('Type::Reference', 'syn::Type::Reference') and c_[1] == pn0[0] and c_[2] for c_ in conds)
+        no_lt = any(c_[0] == 'if' and c_[1].endswith('.lifetime.is_none()') and c_[2] for c_ in conds)
+        if is_ref and no_lt:
+            if not xs.startswith('Type::Reference('):
                 ok = False
             seen_cases.add('static')
         else:
-            hs = [h for h in tl.holes if h != 'ty']
-            L = [c[2] for c in conds if c[0] == 'lt'][0]
-            if not (len(hs) == 1 and txt == '&#%s#ty' % hs[0] and (tl.hole_term(hs[0]) == ('payload', 'Some', 0, L) or any(x == L for x in _st(tl.hole_term(hs[0]))))):
+            if xs not in (pn0[0], pn0[0] + '.clone()'):
                 ok = False
-            seen_cases.add('written')
-    if seen_cases != {'nonref', 'static', 'written'}:
+            seen_cases.add('as-written')
+    assigns = [ev for ev in fw.events if ev.kind == 'assign']
+    if len(assigns) != 1 or not es(assigns[0].target).replace(' ', '').endswith('.lifetime') \
+            or not es(assigns[0].value).replace(' ', '').startswith('Some(Lifetime::new("\'static"'):
         ok = False
-    if only_static:
-        why = 'every reference type is keyed (and emitted) as `&\'static T`, also when the attribute or the field names another lifetime: `Into(&\'a str)` yields `impl Into<&\'static str>`'
+    if any(ev.kind == 'call' and ev.path and ev.path.split('::')[-1] in ('dereference', 'dereference_changed') for ev in fw.events):
+        ok = False
+        why = 'reference layers / `mut` of a target type are stripped before it is keyed and emitted: `Into(&\'a mut u8)` yields `impl Into<&\'a u8>`, `Into(&&str)` yields `impl Into<&\'static str>`'
+    if any(ev.kind == 'macro' and 'tmpl' in ev.mac for ev in fw.events):
+        ok = False
+    if seen_cases != {'static', 'as-written'}:
+        ok = False
     if ok:
         rep.ok('SUM-INTO', f.qname + '|normalised type key', {'helper': f.qname})
     else:
@@ -552,18 +537,52 @@ def check_hash_type(cx, rep):
         tm_ = cx.gm.terms_of(fw_)
         pn = [p_[0] for p_ in g[0].params()]
         good = False
+
+        def view(t_, depth=0):
+            """the term with string views (`.as_str()`, `&`, a private accessor `fn key(&self) -> &str { self.0.as_str() }`) removed"""
+            while isinstance(t_, tuple) and t_ and depth < 6:
+                depth += 1
+                if t_[0] in ('ref', 'deref') and len(t_) == 2:
+                    t_ = t_[1]
+                elif t_[0] == 'mcall' and len(t_) == 3 and t_[2] in ('as_str', 'as_ref', 'deref', 'borrow', 'as_bytes'):
+                    t_ = t_[1]
+                elif t_[0] == 'mcall' and len(t_) == 3:
+                    acc = [x for x in cx.crate.fns if x.self_ty == 'HashType' and x.name == t_[2] and len(x.params()) == 1]
+                    if len(acc) != 1:
+                        break
+                    from ..terms import subst_term as _sub
+                    bt = fn_term(cx, acc[0])
+                    if bt is None:
+                        break
+                    t_ = _sub(bt, P(0), t_[1])
+                else:
+                    break
+            return t_
         if K is not None and name in ('eq', 'cmp'):
             t = fn_term(cx, g[0])
+            if isinstance(t, tuple) and t and t[0] == 'mcall' and len(t) == 4:
+                t = ('mcall', view(t[1]), t[2], view(t[3]))
+            elif isinstance(t, tuple) and t and t[0] == 'call' and len(t) == 4:
+                t = ('call', t[1], view(t[2]), view(t[3]))
+            elif isinstance(t, tuple) and t and t[0] == 'bin' and len(t) == 4:
+                t = ('bin', t[1], view(t[2]), view(t[3]))
             good = t in (('mcall', ('field', P(0), K), name, ('field', P(1), K)), ('call', {'eq': 'PartialEq::eq', 'cmp': 'Ord::cmp'}[name], ('field', P(0), K), ('field', P(1), K)),
                          ('bin', '==', ('field', P(0), K), ('field', P(1), K)) if name == 'eq' else None)
         elif K is not None:
             feeds = [ev for ev in fw_.events if (ev.kind == 'call' and ev.path and ev.path.split('::')[-1] == 'hash') or (ev.kind == 'mcall' and ev.method == 'hash')]
             if len(feeds) == 1 and not feeds[0].ctx and len(pn) == 2:
                 ev = feeds[0]
+                from ..terms import subst_term as _sub2
+
+                def numbered(x):
+                    for i_, n_ in enumerate(pn):
+                        x = _sub2(x, ('param', n_), P(i_))
+                    return x
                 if ev.kind == 'call':
-                    good = [tm_.term(a, ev.scope) for a in ev.args] == [('field', ('param', pn[0]), K), ('param', pn[1])]
+                    args_ = [numbered(tm_.term(a, ev.scope)) for a in ev.args]
+                    good = len(args_) == 2 and view(args_[0]) == ('field', P(0), K) and args_[1] == P(1)
                 else:
-                    good = tm_.term(ev.recv, ev.scope) == ('field', ('param', pn[0]), K) and [tm_.term(a, ev.scope) for a in ev.args] == [('param', pn[1])]
+                    good = view(numbered(tm_.term(ev.recv, ev.scope))) == ('field', P(0), K) and [numbered(tm_.term(a, ev.scope)) for a in ev.args] == [P(1)]
         if good:
             rep.ok('SUM-INTO', g[0].qname + '|by token string')
         else:
@@ -604,6 +623,10 @@ def run(cx, tier='quick'):
     include_own_scanners(cx, facts, rep, ['::into::'])
     from .helpers import check_hash_type_tokens, check_type_with_meta, check_ident_or_index
     check_hash_type_tokens(cx, rep)
+    check_keys_normalised(cx, rep)
+    # to_hash_type is built on common::type::dereference / dereference_changed ("strip every leading &")
+    from .c09 import check_dereference_helper
+    check_dereference_helper(cx, rep, 'SUM-INTO')
     check_type_with_meta(cx, rep, 'SUM-INTO')
     check_ident_or_index(cx, rep)
     from .scope import check_scopes
